@@ -118,8 +118,39 @@ def gen_cases(tier, rng):
     return cases
 
 
+def undecodable_hash_pass(rep):
+    """Hash parameters whose percent-escapes are not UTF-8 (observer only: the query is built by hand, the model's queries are
+    text).  Whatever the service makes of such a value, it is not the digest of the content: no diff may come back."""
+    import httpkit
+    from urllib.parse import quote
+    ua, ub = 'http://site.test/a', 'https://site.test/b'
+    up = {ua: sc.ok_up(sc.HTML_A, 'text/html; charset=utf-8'), ub: sc.ok_up(sc.HTML_B, 'text/html; charset=utf-8')}
+    bodies = {'a': sc.HTML_A, 'b': sc.HTML_B}
+    kit = httpkit.Kit(differ_mode='real')
+    n_bad = n = 0
+    try:
+        for side in ('a', 'b'):
+            h = hashlib.sha256(bodies[side]).hexdigest()
+            for form in (h + '%FF', h[:10] + '%E9' + h[10:], '%C3' + h, h + '%80', '%FF', h + '%C3%28', '%ED%A0%80' + h):
+                for differ in ('html_source_dmp', 'length'):
+                    path = '/%s?a=%s&b=%s&%s_hash=%s' % (differ, quote(ua, safe=''), quote(ub, safe=''), side, form)
+                    obs = kit.request(path, headers={}, upstream=up, files={}, production=False, body=None)
+                    n += 1
+                    rep.count(('undecodable-hash', path), True)
+                    j = obs.json if isinstance(obs.json, dict) else {}
+                    if obs.status == 200 or 'diff' in j or 'change_count' in j or obs.differ_calls:
+                        n_bad += 1
+                        if n_bad <= 2:
+                            rep.violation('undecodable-hash-%d' % n_bad, {'what': 'a hash parameter that is not the digest of the content (its percent-escapes are not UTF-8) '
+                                          'was accepted: status %s, differ ran: %s' % (obs.status, bool(obs.differ_calls)), 'request': path, 'side': side})
+    finally:
+        kit.close()
+    rep.obligation('observer: a hash parameter with bytes that are not UTF-8 never yields a diff (%d requests)' % n, n_bad == 0)
+
+
 def run(rep, ctx):
     rng = rng_for(ctx['seed'], 'c13')
+    undecodable_hash_pass(rep)
     rep.rule = ('bodies (HTML, empty, text, non-ASCII, binary) x hash class per side (absent, correct, wrong, wrong case, truncated, '
                 'empty, padded, over-long) x differ x extra parameters (reserved-name injections, repeated a_hash) x http/file side; '
                 'non-trivial = at least one hash supplied; distinct by (query, bodies)')
